@@ -24,7 +24,8 @@ RULES = {
            "class, frame shape, hash of the cross-thread order of channel operations seen by the wrappers).",
     "C05": COMMON + "C05 oracle: every packet given to storage append and every region mapped by the client is walked frame by frame: "
            "8-byte aligned header, size field == align8(header+image bytes), exact chaining to the packet end, shape == the camera's "
-           "shape for that frame. Non-trivial/distinct as for C04.",
+           "shape for that frame; the fault scenarios of C09 (camera/storage failing at frame k) run under the same oracle. "
+           "Non-trivial/distinct as for C04.",
     "C06": COMMON + "C06 oracle: consecutive frame ids and camera-identical pixels/hardware ids for the client, nothing of an earlier "
            "acquisition (epoch encoded in pixels and timestamps), nothing delivered after stop/abort returned, map/unmap keep "
            "succeeding across 2-8 acquisitions ended by stop or abort; storage unaffected by the client (C04 oracle).",
@@ -85,6 +86,10 @@ def run(prop, tier, replay=None):
         # the state clause ("Running only while workers are alive") is also exercised by the fault scenarios
         nf = 6 if tier == "quick" else 120
         plan += [("c09", 500000 + w * nf, nf) for w in range(6)]
+    if prop == "C05":
+        # packets must stay whole when a device fails in mid-acquisition, too (fault scenarios of C09 under the C05 oracle)
+        nf = 6 if tier == "quick" else 100
+        plan += [("c09", 700000 + w * nf, nf) for w in range(8)]
     if prop in ("C04", "C06") and tier == "thorough":
         plan += [("c05", 100000 + w * 60, 60) for w in range(8)]  # other scenario mixes under the same oracles
         plan += [("c10", 100000 + w * 40, 40) for w in range(8)]
